@@ -277,7 +277,7 @@ def IsCover (G : UG U) (ns : List (Node U)) : Prop :=
 /-- well-formedness of the tables (decidable; evaluated by the driver on every case) -/
 def wfRules (G : UG U) : Bool :=
   G.rules.all (fun e => e.1.1 != Ty.unknown &&
-    decide ((AList.keys e.2).Nodup) &&
+    decide ((AList.keys e.2).Nodup) && decide ((alts G e.1).Nodup) &&
     e.2.all (fun r => decide (r.2.Nodup) && r.2.all (fun args => args.all (fun a => a.1 != Ty.unknown))))
 
 def WF (pg : PUG U) : Bool :=
